@@ -29,7 +29,9 @@ def one_average(rng_seed, trial_kind, walker_type, norb, ne, nchol, dt, spin_dep
     rng = random.Random(rng_seed)
     nodes, wts = qd.gh_nodes(nchol, 10 if nchol <= 2 else 8)
     n = len(wts)
-    S = qd.build(rng, trial_kind, walker_type, norb, ne, nchol, dt, spin_dep, n)
+    # the propagator's own batching (n_batch) is part of the step: use a split whose batch size differs from the batch count
+    pb = 2 if (n % 2 == 0 and n // 2 != 2 and rng_seed % 2 == 0) else 1
+    S = qd.build(rng, trial_kind, walker_type, norb, ne, nchol, dt, spin_dep, n, prop_batch=pb)
     prop, trial, hd, wd, plain = S["prop"], S["trial"], S["ham_data"], S["wave_data"], S["plain"]
     restricted = walker_type == "restricted"
     Wa = wf.complex_walker(rng, norb, ne[0])
